@@ -9,7 +9,27 @@ for i in range(1, 21):
     f = os.path.join(HERE, "meta", pid + ".json")
     meta = json.load(open(f)) if os.path.exists(f) else {}
     if meta.get("claimed"):
-        CHECKS.append({"property_id": pid, **meta["manifest"]})
+        c = {"property_id": pid, **meta["manifest"]}
+        tie = meta.get("tie")
+        if tie:
+            rep = {}
+            try:
+                rep = json.load(open(os.path.join(HERE, "lean", "PyresampleModel", "PyresampleModel", "Gen", "report.json")))
+            except OSError:
+                pass
+            srcs = sorted({rep.get(fn, {}).get("source", fn).split("/")[-1] for fn in tie["functions"]})
+            c["text"] += (" TRANSLATOR TIE (DESIGN.md §13): on every run harness/py2lean.py regenerates Lean definitions of "
+                          + ", ".join(srcs) + " from /repo's current source (Gen/Src.lean) and the tie theorems "
+                          + ", ".join(tie["theorems"]) + f" ({tie['module']}) are re-checked against them: generated definition = "
+                          "hand-written model for all inputs, so a change to one of these functions breaks a proof obligation "
+                          "deterministically, independent of the input generators.")
+            c["note"] += (" The translator (restricted, statically typed Python subset; floored // and %, half-even round, exact "
+                          "rational /, float literals as the exact value of the double; numpy expressions read elementwise; IEEE "
+                          "rounding not modelled) is part of the trusted base of the tie.")
+            c["technique"] = c.get("technique", "Lean 4 theorems over a hand-written executable model + differential correspondence "
+                                   "check against /repo") + \
+                " + Lean definitions regenerated from /repo's source by a translator on every run and proved equal to the model (tie theorems)"
+        CHECKS.append(c)
     else:
         NOT_APPLICABLE.append({"property_id": pid, "reason": meta.get("not_applicable_reason",
             "check not built yet in this session; will be claimed once its model, theorems and correspondence exist")})
@@ -21,7 +41,7 @@ m = {
            "source_commits": [], "add_only": True},
  "engines": [{"name": "lean-model+correspondence", "path": "vcheck",
               "serves_properties": [c["property_id"] for c in CHECKS],
-              "kind_free_text": "Lean 4 theorems about a hand-written executable model (lean/PyresampleModel), tied to /repo by a differential correspondence harness (harness/) that drives the compiled model through a line protocol"}],
+              "kind_free_text": "Lean 4 theorems about a hand-written executable model (lean/PyresampleModel), tied to /repo (a) by a differential correspondence harness (harness/) that drives the compiled model through a line protocol and (b), for the scalar helper functions listed per check, by a translator (harness/py2lean.py) that regenerates Lean definitions from /repo's source on every run, with tie theorems proving them equal to the model"}],
  "checks": [],
  "not_applicable": NOT_APPLICABLE,
  "notes": "See DESIGN.md. Every check: ./vcheck <id> --tier quick|thorough; VERIF_SEED honoured; evidence/<id>.json rewritten per run.",
